@@ -50,13 +50,17 @@ package standard
 //@ // its message and its body are present (their JSON decoders reject a missing message/body; SSZ allocates them)
 //@ spec func blockPresent(b *spec.VersionedSignedBeaconBlock) bool = (b.Version == spec.DataVersionCapella ==> b.Capella != nil && b.Capella.Message != nil && b.Capella.Message.Body != nil) && (b.Version == spec.DataVersionDeneb ==> b.Deneb != nil && b.Deneb.Message != nil && b.Deneb.Message.Body != nil)
 //@
+//@ // C18: what the event handlers put in the cache is the event's own block at the event's own slot, nothing derived
+//@ // (a clause without ordinal speaks of every call of SetBlockRootToSlot the handler makes)
 //@ func (*Service).handleBlock
+//@   at call SetBlockRootToSlot: assert arg1 == data.Block && arg2 == data.Slot
 //@   // assumed of go-eth2-client's event stream: the handler gets a non-nil event whose data, if any, is the non-nil
 //@   // event structure of the subscribed topic
 //@   requires event != nil && (!isnil(event.Data) ==> hastype(event.Data, "*apiv1.BlockEvent") && unbox(event.Data, "*apiv1.BlockEvent") != nil)
 //@   requires nolocks()
 //@
 //@ func (*Service).handleHead
+//@   at call SetBlockRootToSlot: assert arg1 == data.Block && arg2 == data.Slot
 //@   requires event != nil && (!isnil(event.Data) ==> hastype(event.Data, "*apiv1.HeadEvent") && unbox(event.Data, "*apiv1.HeadEvent") != nil)
 //@   requires nolocks()
 //@   assumes call SignedBeaconBlock#1 (resp, err): err == nil ==> resp != nil && resp.Data != nil && blockPresent(resp.Data)
